@@ -16,6 +16,7 @@ Monitors (tagged streams vf/ref/c14_tagstream.py decide loss/dup/reorder):
   eof_after_data     peer EOF without close_notify: ConnectionClosed arrives, preceded by the plaintext of every
                      completely delivered record (prefix of the stream if the cut is inside a record)
   first_flight       application data sent in the same flight as the peer's Finished is delivered
+(the inner layer may also half-close a connection in the middle: the peer's later bytes must still arrive)
 """
 from __future__ import annotations
 
@@ -46,7 +47,7 @@ PROPERTY = "C14"
 LEVEL = "exploration"
 ENGINE = "sansio"
 TECHNIQUE = "real OpenSSL peers in memory + tagged plaintext streams; random record sizing, TCP re-segmentation and schedules"
-BUDGET = {"quick": (220, 15), "thorough": (20_000, 180)}
+BUDGET = {"quick": (500, 10), "thorough": (20_000, 180)}
 WORKERS = {"quick": 4, "thorough": 16}
 REQUIRED = ["c2p", "s2p", "p2c", "p2s", "close_after_data.client", "close_after_data.server", "eof_after_data", "first_flight", "tls12", "tls13"]
 RULE = (
@@ -55,7 +56,7 @@ RULE = (
     "peer writes (1 B ... 40 kB, cut anywhere in the tagged stream), probe sends, writes right behind the Finished flight, a close "
     "(close_notify by client and/or server, EOF without close_notify, EOF inside a record), schedule: ciphertext re-cut into TCP "
     "segments (1 byte, small, record-sized, whole buffer), hook/open completions delayed at random); distinct = (stack, flow, "
-    "versions, write-size classes per direction, segmentation class, interleaving class, close kind); non-trivial iff some direction carried "
+    "versions, segmentation class, single-/multi-record writes, interleaving class, close kind, data behind Finished); non-trivial iff some direction carried "
     ">= 2 TLS records in >= 2 TCP segments"
 )
 ASSUMPTIONS = [
@@ -102,6 +103,7 @@ class Probe(layer.Layer):
         self.sent = {"c": bytearray(), "s": bytearray()}
         self.open_err = None
         self.opened = False
+        self.half_closed = []
         self.started = 0
         self.kicks = 0
 
@@ -123,12 +125,17 @@ class Probe(layer.Layer):
         elif isinstance(ev, Kick):
             self.kicks += 1
             conn = self.context.client if ev.target == "c" else self.context.server
-            if ev.target == "s" and conn.state is ConnectionState.CLOSED and not self.opened:
+            if ev.target == "s" and run.spec["flow"] == "lazy" and conn.state is ConnectionState.CLOSED and not self.opened:
                 self.opened = True  # lazy flow: the inner layer opens the upstream connection once, on demand
                 err = yield commands.OpenConnection(conn)
                 if err:
                     self.open_err = err
-            if conn.state & ConnectionState.CAN_WRITE and (ev.target == "c" or self.open_err is None):
+            if ev.close:
+                # half-close by the inner layer (HTTP/1.0-style): reading from that peer must go on undisturbed
+                if conn.state is ConnectionState.OPEN:
+                    self.half_closed.append(ev.target)
+                    yield commands.CloseTcpConnection(conn, half_close=True)
+            elif conn.state & ConnectionState.CAN_WRITE and (ev.target == "c" or self.open_err is None):
                 data = run.streams["p2" + ev.target].take(ev.size)
                 self.sent[ev.target] += data
                 yield commands.SendData(conn, data)
@@ -470,7 +477,7 @@ class Run:
         elif k == "sw":
             self.peer_write("s", st[1])
         elif k == "kick":
-            self.feed(Kick(st[1], st[2]))
+            self.feed(Kick(st[1], st[2], close=len(st) > 3))
         elif k in ("ccn", "scn"):
             s = k[0]
             p = self.peer[s]
@@ -580,6 +587,9 @@ def gen_spec(r):
         # the server peer can only write once the probe has opened the connection
         first_kick = next(i for i, st in enumerate(plan) if st[0] == "kick" and st[1] == "s")
         plan.insert(0, plan.pop(first_kick))
+    if r.random() < 0.25:
+        side = r.choice([s for s, ok in (("c", has_c), ("s", has_s)) if ok])
+        plan.insert(r.randrange(1, len(plan) + 1), ("kick", side, 0, True))
     close = r.choice(["none", "c-notify", "s-notify", "both-notify", "c-eof", "s-eof", "c-cut", "s-cut", "c-notify-then-data", "s-notify-then-data"])
     if not has_c:
         close = close.replace("c-", "s-").replace("both-", "s-")
@@ -716,10 +726,13 @@ def features(run: Run):
     for s in run.peer:
         multi.append(run.writes[s] >= 2 and run.segments[s] >= 2)
     inter = "mixed" if sum(1 for st in spec["plan"] if st[0] in ("cw", "sw")) and sum(1 for st in spec["plan"] if st[0] == "kick") else "oneway"
+    segs = {spec["seg"][s] for s in run.peer}
+    segc = "1byte" if "bytewise" in segs else "whole" if segs == {"whole"} else "record" if "record" in segs else "mixed"
+    big = any(st[0] in ("cw", "sw") and st[1] > 16384 for st in spec["plan"]) or any(v > 16384 for v in spec["first_flight"].values())
     sig = (
         spec["stack"], spec["flow"], spec["cver"] if run.has_c else "-", spec["sver"] if run.has_s else "-",
-        tuple(sorted(spec["sizes"].items())), spec["seg"]["c"] if run.has_c else "-", spec["seg"]["s"] if run.has_s else "-",
-        inter, spec["close"], bool(spec["first_flight"]["c"]), bool(spec["first_flight"]["s"]),
+        segc, "multi-record-writes" if big else "single-record-writes", inter, spec["close"],
+        "data-behind-finished" if any(run.first_flight.values()) else "-",
     )
     return sig, any(multi)
 
